@@ -2,6 +2,7 @@ package playlist
 
 import (
 	"strconv"
+	"strings"
 	"time"
 
 	"github.com/bluenviron/gohlslib/v2/pkg/playlist/primitives"
@@ -65,21 +66,19 @@ func (t *MediaServerControl) unmarshal(v string) error {
 }
 
 func (t MediaServerControl) marshal() string {
-	ret := "#EXT-X-SERVER-CONTROL:"
+	var attrs []string
 
 	if t.CanBlockReload {
-		ret += "CAN-BLOCK-RELOAD=YES"
+		attrs = append(attrs, "CAN-BLOCK-RELOAD=YES")
 	}
 
 	if t.PartHoldBack != nil {
-		ret += ",PART-HOLD-BACK=" + strconv.FormatFloat(t.PartHoldBack.Seconds(), 'f', 5, 64)
+		attrs = append(attrs, "PART-HOLD-BACK="+strconv.FormatFloat(t.PartHoldBack.Seconds(), 'f', 5, 64))
 	}
 
 	if t.CanSkipUntil != nil {
-		ret += ",CAN-SKIP-UNTIL=" + strconv.FormatFloat(t.CanSkipUntil.Seconds(), 'f', 5, 64)
+		attrs = append(attrs, "CAN-SKIP-UNTIL="+strconv.FormatFloat(t.CanSkipUntil.Seconds(), 'f', 5, 64))
 	}
 
-	ret += "\n"
-
-	return ret
+	return "#EXT-X-SERVER-CONTROL:" + strings.Join(attrs, ",") + "\n"
 }
